@@ -199,6 +199,14 @@ Theorem http_chunk_noext_C02_C03 : forall e m szf c x size,
 Proof. exact ContribFacts.http_chunk_noext_good. Qed.
 Print Assumptions http_chunk_noext_C02_C03.
 
+(* exactness under rewind_mode::required:  chunk = 1*HEXDIG CRLF <size octets> CRLF  with size = value of the digits
+   modulo 2^64; every failure leaves the cursor where it was; no access outside the input *)
+Theorem http_chunk_required_exact : forall e szf c,
+  (forall c', sz_ok (szf c') c') -> Forall is_byte (rest c) ->
+  http_chunk_noext true (eol_ch e) szf c = http_chunk_spec (eol_ch e) c.
+Proof. exact ContribFacts.http_chunk_required_exact. Qed.
+Print Assumptions http_chunk_required_exact.
+
 (* ------------------------------------------------------------------ examples (hypotheses are satisfiable, values are concrete) *)
 
 Definition cur (l : list byte) : cursor := mkcur l pos0.
@@ -280,3 +288,12 @@ Example ex_http_chunk :
   http_chunk_noext false 10 sz_min (cur [51; 13; 10; 97; 98; 99; 13]) = CkRes (Res Fail (mkcur [13] (mkpos 6 2 4)) []) 3.
 Proof. repeat split; vm_compute; reflexivity. Qed.
 Print Assumptions ex_http_chunk.
+
+(* the models are not vacuous about C03: with an INADMISSIBLE size answer (more than what is left) they do report the
+   out-of-bounds access that the real code would make *)
+Example ex_model_detects_overread :
+  rep_one_min_max 0 3 97 10 2 (cur [97]) = Err /\
+  fst (chunk_size (fun _ => 2%nat) (cur [49])) = Err /\
+  chunk_data 10 3 3 (cur [97; 98]) = Err.
+Proof. repeat split; vm_compute; reflexivity. Qed.
+Print Assumptions ex_model_detects_overread.
